@@ -148,9 +148,10 @@ deriving Repr, DecidableEq
 
 abbrev Log := List (Nat × List String)
 
-/-- signature of `triggered` as `inspect.signature` sees it; all combined detectors share one -/
+/-- signature of `triggered` as `inspect.signature` sees it; all combined detectors share one, and a
+`Detector` subclass that keeps the default `(*args, require_mc_truth=False, **kwargs)` has the same -/
 def sigOf : Node → Option (Option (List String × Bool))
-  | .det _ _ acc st => some (some (acc, st))
+  | .det _ _ acc st => if st && acc.isEmpty then some none else some (some (acc, st))
   | .comb _ => some none
   | _ => none
 
